@@ -157,8 +157,9 @@ def spec_incoherent(c, z, DM, ref_freq=None):
     mx = r[0]
     for x in r[1:]:
         mx = V.vmax(mx, x)
-    N2 = V.simp(V.sub(g.N, V.add(mx, crop)))
-    c.raise_if(V.lt(N2, 0), "ANY", "delays exceed the signal length: nothing the statement constrains")
+    # statement: "only samples with in-range sources in every channel are returned" -- none when the
+    # spread of the shifts exceeds the length
+    N2 = V.simp(V.vmax(0, V.sub(g.N, V.add(mx, crop))))
     cols = [A.getitem(ctx, g.data, (SSlice(V.add(r[i], crop), V.add(V.add(r[i], crop), N2), None), i)) for i in range(n)]
     data = A.stack(ctx, cols, 1)
     attrs = g.attrs()
